@@ -158,6 +158,23 @@ func kindOf(n schema.Node) string {
 	return fmt.Sprintf("%T", n)
 }
 
+// hasDefaultPruned recomputes Node.HasDefault() on the tree that remains after pruning.
+func hasDefaultPruned(n schema.Node, keep func(schema.Node) bool) bool {
+	switch v := n.(type) {
+	case schema.Container:
+		if v.Presence() {
+			return false
+		}
+		for _, c := range n.Children() {
+			if keep(c) && hasDefaultPruned(c, keep) {
+				return true
+			}
+		}
+		return false
+	}
+	return n.HasDefault()
+}
+
 // KindOf is exported for pruning oracles.
 func KindOf(n schema.Node) string { return kindOf(n) }
 
@@ -173,7 +190,12 @@ func (d *dumper) node(depth int, path string, n schema.Node) {
 	}
 	kind := kindOf(n)
 	p := path + "/" + n.Name()
-	attrs := []string{fmt.Sprintf("config=%v status=%s presence=%v mandatory=%v ordby=%s hasdefault=%v", n.Config(), statusString(n.Status()), n.HasPresence(), n.Mandatory(), n.OrdBy(), n.HasDefault())}
+	attrs := []string{fmt.Sprintf("config=%v status=%s presence=%v mandatory=%v ordby=%s", n.Config(), statusString(n.Status()), n.HasPresence(), n.Mandatory(), n.OrdBy())}
+	switch n.(type) {
+	case schema.Leaf, schema.LeafList, schema.LeafValue:
+		// for the other kinds HasDefault() is derived from the default children listed below
+		attrs = append(attrs, fmt.Sprintf("hasdefault=%v", n.HasDefault()))
+	}
 	if !d.o.NoModuleNamespace && !(d.o.MaskModuleOf != nil && d.o.MaskModuleOf(p)) {
 		attrs = append(attrs, fmt.Sprintf("ns=%q module=%q submodule=%q", n.Namespace(), n.Module(), n.Submodule()))
 	}
@@ -191,7 +213,22 @@ func (d *dumper) node(depth int, path string, n schema.Node) {
 	case schema.Choice:
 		attrs = append(attrs, fmt.Sprintf("defaultcase=%q", v.DefaultCase()))
 	}
-	dn := append([]string(nil), n.DefaultChildNames()...)
+	var dn []string
+	_, isLeaf := n.(schema.Leaf)
+	_, isLeafList := n.(schema.LeafList)
+	_, isCont := n.(schema.Container)
+	_, isEntry := n.(schema.ListEntry)
+	_, isTree := n.(schema.Tree)
+	if d.o.Prune != nil && !isLeaf && !isLeafList && (isCont || isEntry || isTree) {
+		// the children that still have a default after pruning
+		for _, dc := range n.Children() {
+			if d.o.Prune(dc) && hasDefaultPruned(dc, d.o.Prune) {
+				dn = append(dn, dc.Name())
+			}
+		}
+	} else {
+		dn = append(dn, n.DefaultChildNames()...)
+	}
 	sort.Strings(dn)
 	attrs = append(attrs, fmt.Sprintf("defchildren=%v", dn))
 	d.line(depth, "%s %s %s", kind, p, strings.Join(attrs, " "))
